@@ -17,8 +17,6 @@ Z3_TIMEOUT_MS = int(os.environ.get('VERIF_Z3_TIMEOUT_MS', '20000'))
 # spec helpers over abstract values
 
 def lst_get(l, j):
-    if getattr(l, 'transient', None) is not None:
-        raise Unsupported('specification evaluated while a core list holds a transient non-4-d array')
     if l.items is not None:
         s = l.snapshot()
         s.to_fn()
@@ -185,6 +183,10 @@ class Contract:
     def defaults(self):
         return {}
 
+    def mutated(self, A):
+        """list objects (reachable from the bound arguments) this function may mutate - used to havoc loop state"""
+        return []
+
     def effect(self, ex, state, A, inst, line):
         raise Unsupported('contract %s cannot be used at call sites' % self.name)
 
@@ -250,7 +252,7 @@ def ast_hash(node):
     return hashlib.sha256(ast.dump(node, include_attributes=False).encode()).hexdigest()[:16]
 
 
-MODULE_GLOBALS = {'np': SModule('np'), 'linalg': SModule('linalg'), 'lin': SModule('lin'), 'utl': SModule('utl'),
+MODULE_GLOBALS = {'sle': SModule('sle'), 'tt': SModule('tt'), 'np': SModule('np'), 'linalg': SModule('linalg'), 'lin': SModule('lin'), 'utl': SModule('utl'),
                   '_time': SModule('_time'), 'TT': ('TTclass',), 'sp': SModule('sp')}
 
 
